@@ -299,7 +299,12 @@ async fn episode(p: &EpParams, mt: bool) -> EpReport {
         tasks.push(tokio::spawn(publisher(mk(&w), ta.clone(), n, rng.fork(1), max_batch, mt)));
         shape.push(format!("pub{}", n));
     }
-    if prof == Profile::C08 && rng.chance(1, 6) {
+    let big = match prof {
+        Profile::C08 => rng.chance(1, 6),
+        Profile::C03 => rng.chance(1, 8),
+        Profile::C01 => false,
+    };
+    if big {
         // one request far larger than any internal batching threshold races the other publishers:
         // its messages must stay contiguous and in request order as well
         let cx = mk(&w);
@@ -371,6 +376,13 @@ async fn episode(p: &EpParams, mt: bool) -> EpReport {
         shape.push(format!("burst{}x{}", waves, total));
     }
     // consumers
+    if big {
+        // beside a publish of more than 1000 messages: a StreamingPull that may hold 5000 at once
+        // (one pull can then return more than one response's worth)
+        let s = subs[rng.below(subs.len() as u64) as usize].clone();
+        tasks.push(tokio::spawn(streamer(mk(&w), s, rng.range(3, 10), rng.fork(14), Arc::clone(&pool), mt, allow_modify, 5000)));
+        shape.push("stream5000".into());
+    }
     for s in subs.iter() {
         let n_cons = match prof {
             Profile::C03 => rng.range(3, 8),
